@@ -126,9 +126,11 @@ def getBatchPush (s : State) (r x : Nat) : State × Except Panic (Nat × List Na
   match batchOffset s r with
   | .error p => (s, .error p)
   | .ok off =>
-    match getBatchByOffset s off with
-    | (s', none) => (s', .error (.alreadyValidated (s.firstBatch + off)))
-    | (s', some b) =>
+    -- `get_batch_by_offset`
+    let s' := extend s off
+    match s'.batches.getD off none with
+    | none => (s', .error (.alreadyValidated (s.firstBatch + off)))
+    | some b =>
       let b' := { b with payload := b.payload ++ [x] }
       (setSlot s' off (some b'), .ok (b'.ctor, b'.payload))
 
@@ -183,9 +185,11 @@ def validateRecord (s : State) (r : Nat) : State × VOut :=
       if total < first then (s, .err .outOfRange) else
       let tc := min s.rpb (total - first)
       let ro := r - first
-      match getBatchByOffset s off with
-      | (s1, none) => (s1, .panic (.alreadyValidated bi))
-      | (s1, some b) =>
+      -- `get_batch_by_offset`
+      let s1 := extend s off
+      match s1.batches.getD off none with
+      | none => (s1, .panic (.alreadyValidated bi))
+      | some b =>
         if b.pendingRecords.length ≤ ro then
           markRecord s1 off bi tc ro b (resize b.pendingRecords (ro + 1))
         else if b.pendingRecords.getD ro false then (s1, .panic (.twice r))
